@@ -2,6 +2,7 @@ package rules
 
 import (
 	"go/types"
+	"sort"
 	"strings"
 
 	"fv/internal/core"
@@ -58,6 +59,8 @@ func C13(ctx *core.Ctx) {
 	ctx.Assume("context.WithTimeout(d) is done after d; time.After(d) fires after d")
 	ctx.Assume("(*nats.Conn).PublishRequest does not wait for the peer")
 
+	ctx.Rule("C13.R5", "no wait on a long-held mutex before the timeout runs: the caller's goroutine in Request/Oneway never acquires a mutex that some function holds across calls on an external interface (transport Open/Close) or blocking operations", 6)
+	longHeld := longHeldLocks(r)
 	timedOut := constInt(r, "TRANSPORT_EXCEPTION_TIMED_OUT")
 	bi := ssax.ComputeBlocking(r.Fns, r.Resolve)
 
@@ -253,7 +256,89 @@ func C13(ctx *core.Ctx) {
 			}
 		}
 		c01Request(ctx, r, fn, "C13.R4", "")
+		// R5
+		nbad := 0
+		for _, g := range ssax.Cone([]*ssa.Function{fn}, r.Resolve, false) {
+			for _, c := range ssax.Calls(g) {
+				if _, op := ssax.LockOp(c); op != "Lock" && op != "RLock" {
+					continue
+				}
+				if _, isDefer := c.Instr.(*ssa.Defer); isDefer {
+					continue
+				}
+				o, f, _ := lockField(c)
+				if why, ok := longHeld[o+"."+f]; ok {
+					nbad++
+					ctx.Violate("C13.R5", fname+" › acquires "+o+"."+f+within(g, fn), r.IPos(c.Instr),
+						"the caller's goroutine waits for a mutex that "+why+": the wait is not covered by the FContext timeout, so a stalled Open/Close of the wrapped transport delays the call beyond its timeout")
+				}
+			}
+		}
+		if nbad == 0 {
+			ctx.Discharge("C13.R5", fname+" › acquires no long-held mutex on the caller's goroutine", fnPos(r, fn), sprintf("%d long-held mutexes known: %s", len(longHeld), strings.Join(keysOf(longHeld), ", ")))
+		}
 	}
+}
+
+func keysOf(m map[string]string) []string {
+	var ks []string
+	for k := range m {
+		ks = append(ks, k)
+	}
+	sort.Strings(ks)
+	return ks
+}
+
+// longHeldLocks: mutexes ("Owner.field") some critical section of which
+// contains an invoke on an interface declared outside the package or a
+// blocking operation. Value: a description of the witness.
+func longHeldLocks(r *RT) map[string]string {
+	out := map[string]string{}
+	for _, fn := range r.Fns {
+		var fields map[string]string // lock key -> Owner.field
+		for _, c := range ssax.Calls(fn) {
+			if k, op := ssax.LockOp(c); op == "Lock" || op == "RLock" {
+				o, f, _ := lockField(c)
+				if o != "" {
+					if fields == nil {
+						fields = map[string]string{}
+					}
+					fields[k] = o + "." + f
+				}
+			}
+		}
+		if fields == nil {
+			continue
+		}
+		locks := ssax.LockSets(fn, nil)
+		ssax.Instrs(fn, func(in ssa.Instruction) {
+			ls := locks[in]
+			if len(ls) == 0 {
+				return
+			}
+			why := ""
+			if desc, ok := ssax.Blocking(in); ok {
+				why = ssax.Name(fn) + " holds across " + desc
+			} else if c, ok := ssax.AsCall(in); ok && c.Method != nil {
+				if _, isDefer := in.(*ssa.Defer); !isDefer {
+					if n, ok := c.Common.Value.Type().(*types.Named); ok && n.Obj().Pkg() != nil && n.Obj().Pkg() != r.Pkg.Pkg {
+						why = ssax.Name(fn) + " holds across " + n.Obj().Name() + "." + c.Method.Name() + "()"
+					}
+				}
+			}
+			if why == "" {
+				return
+			}
+			for k := range ls {
+				if of, ok := fields[k]; ok {
+					if _, seen := out[of]; !seen {
+						out[of] = why
+					}
+				}
+			}
+		})
+	}
+	return out
 }
 
 func within(f, top *ssa.Function) string {
